@@ -41,6 +41,15 @@ Proof.
     + specialize (R _ _ _ H). lia.
 Qed.
 
+Lemma f_w_cobj : s_nextobj s <= s_nextobj s' -> ref_ok s' (t_cobj th') ->
+  forall x, x < s_n s' -> ref_ok s' (t_cobj (s_thr s' x)).
+Proof.
+  intros L A x Hx. destruct (Nat.eq_dec x t) as [-> | Hne].
+  - now rewrite thr_same.
+  - rewrite thr_other by assumption. rewrite Hn in Hx. pose proof (inv_w_cobj s Hinv x Hx) as P.
+    unfold ref_ok in *. intros y E. specialize (P y E). lia.
+Qed.
+
 (* ---- keys: the key of an allocated instance never changes *)
 Definition keys_kept := forall o, o < s_nextobj s -> o_key (s_heap s' o) = o_key (s_heap s o).
 Lemma f_key_strong : s_strong s' = s_strong s -> keys_kept ->
@@ -230,4 +239,85 @@ Proof.
     + rewrite E2 in H by assumption. now destruct (inv_wlock_dom s Hinv x o H).
 Qed.
 
+(* ---- cull *)
+Lemma f_cull :
+  (forall x, x < s_n s -> x <> t -> cull_ok (s_strong s) (s_weak s) (s_heap s) (s_thr s x) ->
+     cull_ok (s_strong s') (s_weak s') (s_heap s') (s_thr s x)) ->
+  cull_ok (s_strong s') (s_weak s') (s_heap s') th' ->
+  forall x, x < s_n s' -> cull_ok (s_strong s') (s_weak s') (s_heap s') (s_thr s' x).
+Proof.
+  intros A B x Hx. rewrite Hn in Hx. destruct (Nat.eq_dec x t) as [-> | Hne].
+  - now rewrite thr_same.
+  - rewrite thr_other by assumption. apply A; try assumption. now apply (inv_cull s Hinv).
+Qed.
+
 End Fields.
+
+(* cull_ok under changes it does not look at *)
+Lemma cull_ok_same : forall d w h h' th,
+  (forall o, t_cobj th = Some o -> o_key (h' o) = o_key (h o)) ->
+  (forall o, t_self th = Some o -> o_key (h' o) = o_key (h o)) ->
+  cull_ok d w h th -> cull_ok d w h' th.
+Proof.
+  intros d w h h' th Kc Ks (A & B & C & D & E). split; [| split; [| split; [| split]]]; try assumption.
+  - intros X. destruct (B X) as (o & B1 & B2 & B3). exists o. rewrite (Kc o B1). auto.
+  - intros X Y. destruct (E X Y) as (o & E1 & E2). exists o. rewrite (Ks o E1). auto.
+Qed.
+
+(* a thread outside the lock only carries the `self` of a cull called from created *)
+Lemma cull_ok_unlocked : forall d w d' w' h th,
+  holds (t_pc th) = false -> cull_ok d w h th -> cull_ok d' w' h th.
+Proof.
+  intros d w d' w' h th Hh (A & B & C & D & E).
+  split; [| split; [| split; [| split]]];
+    try (intros X; destruct (t_pc th); simpl in *; discriminate).
+  exact E.
+Qed.
+
+
+Lemma cull_ok_none : forall d w h th, cullpc (t_pc th) = false -> cull_ok d w h th.
+Proof.
+  intros d w h th H. split; [| split; [| split; [| split]]];
+    intros X; destruct (t_pc th); simpl in *; discriminate.
+Qed.
+
+(* an entry written into the strong dict for a key that had none, by a thread outside the lock *)
+Lemma cull_ok_dset : forall d w h th i o,
+  dget d i = None -> (kabs (t_pc th) = true -> t_key th <> i) ->
+  cull_ok d w h th -> cull_ok (dset d i o) w h th.
+Proof.
+  intros d w h th i o Hn Hk (A & B & C & D & E). split; [| split; [| split; [| split]]]; try assumption.
+  - intros X. destruct (A X) as (A1 & A2). split; [| assumption].
+    rewrite dget_dset_other; [assumption | now apply Hk].
+  - intros X. destruct (B X) as (o1 & B1 & B2 & B3). exists o1. repeat split; try assumption.
+    intros P. specialize (B3 P). rewrite dget_dset_other; [assumption | congruence].
+  - intros X. destruct (D X) as (D1 & D2 & D3 & D4). repeat split; try assumption.
+    + intros k Hk'. destruct (Z.eq_dec k i) as [-> | Hne]; [rewrite dget_dset_same; discriminate |].
+      rewrite dget_dset_other by assumption. now apply D2.
+    + intros Y. destruct (Z.eq_dec (t_key th) i) as [-> | Hne]; [rewrite dget_dset_same; discriminate |].
+      rewrite dget_dset_other by assumption. now apply D3.
+Qed.
+
+Lemma cull_ok_goto : forall d w h th p',
+  cull_ok d w h th ->
+  (kabs p' = true -> kabs (t_pc th) = true) ->
+  (cobjdef p' = true -> cobjdef (t_pc th) = true /\ (p' = U205 -> t_pc th = U205)) ->
+  (wkeys p' = true -> wkeys (t_pc th) = true /\ (wcur p' = true -> wcur (t_pc th) = true)) ->
+  (skeys p' = true -> skeys (t_pc th) = true /\ (scur p' = true -> scur (t_pc th) = true) /\
+                      (skeyout p' = true -> skeyout (t_pc th) = true)) ->
+  (cullpc p' = true -> cullpc (t_pc th) = true) ->
+  cull_ok d w h (set_pc th p').
+Proof.
+  intros d w h th p' (A & B & C & D & E) Ha Hb Hc Hd He.
+  split; [| split; [| split; [| split]]]; simpl.
+  - intros X. apply A. now apply Ha.
+  - intros X. destruct (Hb X) as (X1 & X2). destruct (B X1) as (o & B1 & B2 & B3).
+    exists o. repeat split; try assumption. intros P. apply B3. now apply X2.
+  - intros X. destruct (Hc X) as (X1 & X2). destruct (C X1) as (C1 & C2 & C3).
+    split; [exact C1 | split; [exact C2 | intros Y; apply C3; now apply X2]].
+  - intros X. destruct (Hd X) as (X1 & X2 & X3). destruct (D X1) as (D1 & D2 & D3 & D4).
+    split; [exact D1 | split; [exact D2 | split]].
+    + intros Y. apply D3. now apply X2.
+    + intros Y. apply D4. now apply X3.
+  - intros X Y. apply E; [now apply He | assumption].
+Qed.
